@@ -43,6 +43,16 @@ class _Grab(logging.Handler):
 
 def load(cm, fmt, data, opts):
     """returns (db | None, problems) ; problems = reader noise a well-formed file must not produce"""
+    dbs, problems = load_all(cm, fmt, data, opts)
+    if dbs is None:
+        return None, problems
+    if len(dbs) != 1:
+        problems.append("reader returned %d matrices for one bus" % len(dbs))
+    return list(dbs.values())[0], problems
+
+
+def load_all(cm, fmt, data, opts):
+    """returns ({bus name: db} | None, problems)"""
     problems = []
     h = _Grab()
     root = logging.getLogger("canmatrix")
@@ -58,9 +68,7 @@ def load(cm, fmt, data, opts):
         if dbs is None or len(dbs) == 0:
             problems.append("reader returned no matrix")
         else:
-            if len(dbs) != 1:
-                problems.append("reader returned %d matrices for one bus" % len(dbs))
-            db = list(dbs.values())[0]
+            db = dict(dbs)
     except Exception as e:     # noqa: a reader that raises on a well-formed file has failed
         problems.append("exception %s: %s" % (type(e).__name__, str(e)[:200]))
     finally:
@@ -71,8 +79,9 @@ def load(cm, fmt, data, opts):
     if txt:
         problems.append("stdout: " + txt[:300])
     problems += ["log " + r[:300] for r in h.records[:5]]
-    if db is not None and getattr(db, "load_errors", None):
-        problems += ["load_errors: " + repr(e)[:200] for e in db.load_errors[:5]]
+    for one in (db or {}).values():
+        if getattr(one, "load_errors", None):
+            problems += ["load_errors: " + repr(e)[:200] for e in one.load_errors[:5]]
     return db, problems
 
 
